@@ -47,6 +47,10 @@ type c17Case struct {
 	RunOn int       `json:"runon"` // "off": cycles with the LCD on (after a restart) before switching off; -1: switched off at power-on, never on again
 	OAM   string    `json:"oam"`   // initial OAM, 160 bytes hex (loaded by DMA with the LCD off)
 	Steps []c17Step `json:"steps"`
+	// DMA > 0: a second transfer (from D100, the initial OAM bytes reversed and complemented) is started just
+	// before step DMA-1, so the instructions after it run while a transfer is in flight; such a program holds
+	// no PUSH and no store, so OAM must end up equal to that second source.
+	DMA int `json:"dma,omitempty"`
 }
 
 // pointer pair of each generated instruction form: 0 BC, 1 DE, 2 HL, 3 SP
@@ -90,6 +94,16 @@ func c17Validate(cas *c17Case) error {
 	}
 	if len(cas.Steps) > 256 {
 		return fmt.Errorf("too many steps")
+	}
+	if cas.DMA < 0 || cas.DMA > len(cas.Steps)+1 {
+		return fmt.Errorf("dma step %d", cas.DMA)
+	}
+	if cas.DMA > 0 {
+		for i, s := range cas.Steps {
+			if c17IsPush(s.Op) || c17IsStore(s.Op) {
+				return fmt.Errorf("step %d: a program with a transfer in flight must not store (opcode %02x)", i, s.Op)
+			}
+		}
 	}
 	for i, s := range cas.Steps {
 		if _, ok := c17Forms[s.Op]; !ok {
@@ -226,7 +240,16 @@ func c17Exec(cas *c17Case, n int) (out c17Outcome) {
 	}
 	for i, b := range oam {
 		m.Mp.Write(0xd000+uint16(i), b)
+		m.Mp.Write(0xd100+uint16(i), ^oam[159-i])
 		out.allowed[i] = []uint8{b}
+	}
+	dmaStarted := false
+	startDMA := func() {
+		m.Mp.Write(0xff46, 0xd1)
+		dmaStarted = true
+		for i := range oam {
+			out.allowed[i] = []uint8{^oam[159-i]}
+		}
 	}
 	m.Mp.Write(0xff46, 0xd0)
 	for i := 0; i < 170; i++ {
@@ -259,6 +282,9 @@ func c17Exec(cas *c17Case, n int) (out c17Outcome) {
 			}
 		}()
 		for i := 0; i < n; i++ {
+			if cas.DMA == i+1 {
+				startDMA()
+			}
 			s := cas.Steps[i]
 			pc := 0xc000 + uint16(i)
 			if !m.CPU.VerifAtBoundary() || m.CPU.VerifGet().PC != pc {
@@ -313,6 +339,25 @@ func c17Exec(cas *c17Case, n int) (out c17Outcome) {
 	c17StatSteps += int64(out.executed)
 	if out.desync != "" {
 		c17StatDesync++
+	}
+	if cas.DMA > 0 && out.desync == "" && out.panicMsg == "" && n == len(cas.Steps) {
+		if !dmaStarted {
+			startDMA()
+		}
+		func() {
+			defer func() {
+				if r := recover(); r != nil {
+					out.panicMsg = fmt.Sprintf("%v", r)
+				}
+			}()
+			for i := 0; i < 170; i++ { // let the transfer finish (the CPU is not stepped)
+				hw()
+			}
+		}()
+	} else if dmaStarted {
+		for i := 0; i < 170; i++ {
+			hw()
+		}
 	}
 	if ref.On {
 		m.Mp.Write(0xff40, 0x11)
@@ -491,8 +536,32 @@ func c17RunOnGen(rt *rapid.T) int {
 	return n + rapid.IntRange(0, 1).Draw(rt, "frame")*c13Frame
 }
 
+// c17MaybeDMA turns a quarter of the cases into programs that run while a transfer is in flight.
+func c17MaybeDMA(rt *rapid.T, cas *c17Case) {
+	if rapid.IntRange(0, 3).Draw(rt, "dma-in-flight") != 0 {
+		return
+	}
+	kept := cas.Steps[:0]
+	for _, s := range cas.Steps {
+		if !c17IsPush(s.Op) && !c17IsStore(s.Op) {
+			if s.Skip > 60 {
+				s.Skip %= 60 // keep the instructions inside the 162 cycles of the transfer
+			}
+			kept = append(kept, s)
+		}
+	}
+	cas.Steps = kept
+	cas.DMA = 1 + rapid.IntRange(0, len(cas.Steps)).Draw(rt, "dma-step")
+	if cas.DMA > 3 {
+		cas.DMA = 1 + (cas.DMA-1)%3
+	}
+}
+
 func c17Classify(c *vf.Collector, cas *c17Case) bool {
 	plan, _, _ := c17Schedule(cas)
+	if cas.DMA > 0 {
+		c.Class("transfer-in-flight", 1)
+	}
 	if cas.Scen == "off" {
 		if cas.RunOn < 0 {
 			c.Class("off/poweron-then-off", 1)
@@ -517,7 +586,7 @@ func TestC17(t *testing.T) {
 	c := vf.New(t, "C17", "programs of single instructions (INC/DEC rr, PUSH/POP, LD A,(HL+/-), LD (HL+/-),A, LD A,(BC)/(DE), LD r,(HL)) with the addressed pair steered through FDF0-FF00 (mostly FE00-FEFF), random initial OAM loaded by DMA; "+
 		"sweep: LCD switched off at every cycle of the first line and of selected lines (thorough: every line) in every mode, and at power-on, then a seeded program of 16 instructions runs with the LCD off; "+
 		"rapid 'lcd-off': random switch-off point and program; rapid 'lcd-on': every instruction scheduled by the reference LCD counter entirely outside mode 2 (margin 1 before / 2 after) after a random idle gap. "+
-		"OAM is read once at the end with the LCD off and must equal the plain-memory model (stores in mode 3: either value). Non-trivial: >= 1 instruction whose pointer is in FE00-FEFF when it executes. Distinct = hash of the case.")
+		"A quarter of the rapid programs hold no store and run while a second DMA transfer is in flight (OAM must then equal that transfer's source). OAM is read once at the end with the LCD off and must equal the plain-memory model (stores in mode 3: either value). Non-trivial: >= 1 instruction whose pointer is in FE00-FEFF when it executes. Distinct = hash of the case.")
 	defer c.Flush()
 	defer func() {
 		c.Class("instructions-executed", c17StatSteps)
@@ -597,6 +666,7 @@ func TestC17(t *testing.T) {
 		for i := range cas.Steps {
 			cas.Steps[i].Skip = 0
 		}
+		c17MaybeDMA(rt, &cas)
 		nt := c17Classify(c, &cas)
 		c.Case("lcd-off", vf.Hash(cas), nt, func() interface{} { return cas })
 		sig, err := c17Run(cas)
@@ -607,6 +677,7 @@ func TestC17(t *testing.T) {
 
 	c.Rapid("lcd-on", 16000, 600000, func(rt *rapid.T) {
 		cas := c17Case{Scen: "on", RunOn: 0, OAM: c17OAMGen.Draw(rt, "oam"), Steps: rapid.SliceOfN(c17StepGen, 1, 40).Draw(rt, "steps")}
+		c17MaybeDMA(rt, &cas)
 		nt := c17Classify(c, &cas)
 		c.Case("lcd-on", vf.Hash(cas), nt, func() interface{} { return cas })
 		sig, err := c17Run(cas)
